@@ -1,6 +1,7 @@
 import St4sd.Model.ArgSubst
 import St4sd.Lemmas.C10Spell
 import St4sd.Lemmas.C10Order
+import St4sd.Lemmas.C10History
 /-!
 # C10 — Command-line reference substitution is exact
 
@@ -1016,5 +1017,77 @@ example : ([0, 1, 10, 11, 2, 3, 4, 5, 6, 7, 8, 9].map fun i => (instId 0 i "A".t
     ((List.range 12).map fun i => (instId 0 i "A".toList, i)) := by decide
 
 end LoopOrder
+
+/-! ### One live component resolved again and again while the referenced files change
+
+`St4sd.Model.ArgSubstHistory`: the value of an `:output` / `:loopoutput` reference is read from the file system at the
+moment the arguments are resolved.  Whatever happened before - earlier resolutions, how often the file was rewritten,
+with which lengths and which modification times - the result is the one a fresh reader of the current contents gets. -/
+section History
+open St4sd.C10History
+
+/-- after ANY batch of operations a path holds what the LAST operation naming it left there (written contents, or
+nothing after a removal); paths no operation names keep what they held.  Modification times and lengths play no role. -/
+theorem file_holds_last_write (ops : List FsOp) (fs : FS) (p : S) :
+    FS.read (FS.applyAll fs ops) p = heldAfter ops p (FS.read fs p) := read_applyAll ops fs p
+
+private theorem effect_append_write (ops : List FsOp) (p : S) (t : Nat) (c : S) :
+    effect (ops ++ [.write p t c]) p = some (some c) := by
+  induction ops with
+  | nil => simp [effect]
+  | cons op ops ih => simp [effect, ih]
+
+/-- `heldAfter` spelled out: the last operation naming the path decides -/
+theorem heldAfter_write_last (ops : List FsOp) (p : S) (t : Nat) (c : S) (before : Option S) :
+    heldAfter (ops ++ [.write p t c]) p before = some c := by
+  simp [heldAfter, effect_append_write]
+
+/-- the `:output` reference to `p`, resolved after `p` was (re)written with contents `c`, has the value of `c` - for
+EVERY modification time `t` the writer leaves (a new one, the one the file had before, an older one) and every
+`c` (in particular one exactly as long as the previous contents), and whatever the file system held before -/
+theorem output_value_after_rewrite (fs : FS) (d : HDecl) (p : S) (t : Nat) (c : S) (hd : d.psource = .fileAt p) :
+    (HDecl.at (FS.apply fs (.write p t c)) d).toRef.value = some (outputValue c) := by
+  simp [HDecl.at, Decl.toRef, hd, PSource.at, read_write_same, Source.value?]
+
+/-- ... and `""` after the file was removed -/
+theorem output_value_after_remove (fs : FS) (d : HDecl) (p : S) (hd : d.psource = .fileAt p) :
+    (HDecl.at (FS.apply fs (.remove p)) d).toRef.value = some [] := by
+  simp [HDecl.at, Decl.toRef, hd, PSource.at, read_remove_same, Source.value?]
+
+/-- resolving the arguments looks at the CONTENTS the files hold and at nothing else: two file systems that agree on
+every file's contents (and may differ in everything else: modification times, shadowed older versions, the order
+in which the files came to be) give the same command line, the same unused and unresolved answers -/
+theorem resolution_depends_on_current_contents_only (fs fs' : FS) (h : ∀ p, FS.read fs p = FS.read fs' p)
+    (decls : List HDecl) (args : S) : resolveAt fs decls args = resolveAt fs' decls args :=
+  resolveAt_congr fs fs' h decls args
+
+/-- changing every file's modification time in any way changes nothing -/
+theorem resolution_ignores_modification_times (f : S → Nat → Nat) (fs : FS) (decls : List HDecl) (args : S) :
+    resolveAt (retime f fs) decls args = resolveAt fs decls args :=
+  resolveAt_congr _ _ (read_retime f fs) decls args
+
+/-- after any history the result is the one of a fresh reader: any file system `fs'` that holds, per path, what the last
+operation naming the path left (else what `fs` held) resolves to the same result as the live one -/
+theorem resolution_after_history_is_fresh (fs fs' : FS) (ops : List FsOp)
+    (h : ∀ p, FS.read fs' p = heldAfter ops p (FS.read fs p))
+    (decls : List HDecl) (args : S) :
+    resolveAt (FS.applyAll fs ops) decls args = resolveAt fs' decls args :=
+  resolveAt_congr _ _ (fun p => by rw [read_applyAll, h]) decls args
+
+/-- the results of a history (resolve, batch of operations, resolve, …) are the fresh results at the file systems the
+history goes through: no result depends on an earlier one -/
+theorem history_results_are_the_fresh_results (fs : FS) (decls : List HDecl) (args : S) (rounds : List (List FsOp)) :
+    resolveRounds fs decls args rounds = (states fs rounds).map fun st => resolveAt st decls args :=
+  resolveRounds_eq_map decls args rounds fs
+
+/-- non-vacuity: a fixed-width progress file rewritten with the same length and the same modification time -/
+example :
+    let d : HDecl := { abs := "stage0.S/p.txt:output".toList, rel := "S/p.txt:output".toList, relActive := true,
+                       kind := .output, psource := .fileAt "S/p.txt".toList }
+    (resolveRounds [("S/p.txt".toList, { mtime := 7, contents := "step=0010\n".toList })] [d] "-p S/p.txt:output".toList
+        [[.write "S/p.txt".toList 7 "step=0020\n".toList], [.remove "S/p.txt".toList]]).map (·.out)
+      = ["-p step=0010".toList, "-p step=0020".toList, "-p ".toList] := by decide
+
+end History
 
 end St4sd.C10
